@@ -321,5 +321,10 @@ func parseInstances(buf []byte) ([]*input.Instance, error) {
 	if err := yaml.Unmarshal(buf, &r); err != nil {
 		return nil, err
 	}
+	for i, x := range r {
+		if x == nil {
+			return nil, errorx.Invalid("instance[%d] is null", i)
+		}
+	}
 	return r, nil
 }
